@@ -193,7 +193,7 @@ func rulesC19(c *Ctx) {
 				c.Check(okR, "R4", con, in.Pos(), "on the isCached edge; the cached value is what is returned, with a nil error", why)
 			}()
 		}
-		if ci < 0 || stores < 3 {
+		if ci < 0 || stores < 1 {
 			c.Bad("R4", short+" cache stores", 0, fmt.Sprintf("found %d cache stores (>= 3 expected)", stores))
 		}
 		// cache keys: a key built from several names separates them by a constant
